@@ -17,7 +17,7 @@ def run():
     recs, stats, panics = progs.load()
     seen = set()
     for p in panics:
-        role = replays.panic_role(p.get("msg"))
+        role = replays.panic_role(p.get("msg"), p["e"])
         sig = (role, p.get("loc"))
         if sig in seen:
             continue
